@@ -69,6 +69,23 @@ def lock_dir_private(ctx: Ctx, rid: str = "C19.R9") -> None:
             if isinstance(x, ast.Constant) and isinstance(x.value, str) and x.value.strip("/").split("/")[0] == lock_dir \
                     and " " not in x.value.strip():
                 ok = id(x) in allowed
+                if not ok:
+                    # a named constant (module / class level `NAME = ".locks/..."`) whose every use is a create_lock argument
+                    nm = next((st.targets[0].id for st in ast.walk(m.tree) if isinstance(st, ast.Assign) and st.value is x
+                               and len(st.targets) == 1 and isinstance(st.targets[0], ast.Name)), None)
+                    if nm is not None:
+                        uses, in_lock = 0, 0
+                        for m2 in ctx.prog.modules.values():
+                            al2 = set()
+                            for y in ast.walk(m2.tree):
+                                if isinstance(y, ast.Call) and isinstance(y.func, ast.Attribute) and y.func.attr == "create_lock":
+                                    al2 |= {id(c) for a in list(y.args) + [k.value for k in y.keywords] for c in ast.walk(a)}
+                            for y in ast.walk(m2.tree):
+                                if (isinstance(y, ast.Name) and y.id == nm and isinstance(y.ctx, ast.Load)) or \
+                                        (isinstance(y, ast.Attribute) and y.attr == nm and isinstance(y.ctx, ast.Load)):
+                                    uses += 1
+                                    in_lock += id(y) in al2
+                        ok = uses > 0 and uses == in_lock
                 n_ok += ok
                 ctx.ob(rid, None, "lock directory named only where the lock is created", None, ok,
                        f"`{x.value}`" + ("" if ok else ": code outside create_lock addresses the lock directory - whatever it lists, "
